@@ -17,7 +17,7 @@ META = {
         "seeded random scenarios: termination trigger in {Exception failure / orphaned return in each flavour, "
         "BaseException failure, SIGINT to the main thread, KeyboardInterrupt raised in an asyncio or thread "
         "payload, shutdown() from an outside thread or a thread payload, MetaRunner.stop()} x populations of "
-        "0-6 coroutine payloads per flavour (sleeping, spinning on zero-length sleeps, blocked, adopted a few "
+        "0-6 coroutine payloads per flavour (sleeping, spinning on zero-length sleeps, blocked, waiting on an awaitable nobody else references - with a forced garbage collection before the trigger -, adopted a few "
         "statements before the trigger, adopted from other payloads, adopted by a payload's own cleanup while the runtime terminates (hand-over chains 1-3 deep), adopted one per loop turn by dispatcher payloads that are still busy at the trigger, services; cleanup none / synchronous 0-30 ms / "
         "trio-shielded 0-300 ms) x 0-3 blocked thread payloads x trigger time jitter x line-level delay injection. "
         "Non-trivial = at least one coroutine payload was running at the trigger; distinct by scenario shape."
@@ -41,7 +41,7 @@ def plan(tier, seed):
 
 def coroutine_payload(rnd, pid, flavour):
     program = rnd.choice([[["beat", 0.01, None]], [["beat", 0.03, None]], [["spin", None]], [["block"]], [["sleep", 30]],
-                          [["sleep", 0.01], ["beat", 0.005, None]]])
+                          [["sleep", 0.01], ["beat", 0.005, None]], [["wait_private"]], [["sleep", 0.01], ["wait_private"]]])
     kinds = [{"kind": "none"}, {"kind": "sync", "dur": rnd.choice([0.0, 0.005, 0.03])}]
     if flavour == "trio":
         kinds += [{"kind": "shielded", "dur": rnd.choice([0.0, 0.02, 0.1, 0.3])}] * 2
@@ -109,6 +109,8 @@ def gen_case(rnd, spec):
         if gen["payloads"][-1]["when"] == "running":
             script.append(["adopt", "blk%d" % i])
     script.append(["sleep", rnd.choice([0.02, 0.08, 0.15, 0.3])])
+    if rnd.random() < 0.6:
+        script.append(["gc"])  # payloads waiting on something only they reference must survive a collection
     script += late  # adopted a few statements before the trigger
     fl = {"asyncio": "asyncio", "trio": "trio", "thread": "threading"}
     if trigger.startswith(("fail_", "return_", "base_", "kbint_", "systemexit_")):
@@ -189,6 +191,8 @@ def judge(case, run, result):
                 problems.append(("trigger %s: %s payload %s (program %s) %s" % (trigger, p["flavour"], pid, p["program"], what), None))
         else:
             result.count("payloads_cancelled_and_cleaned_%s" % p["flavour"])
+            if any(op[0] == "wait_private" for op in p["program"]):
+                result.count("private_waiters_cancelled_properly")
             if p.get("cleanup", {}).get("kind") == "shielded":
                 result.count("shielded_cleanups_finished_first")
     # workers created on the fly by dispatchers: whoever started must have ended or been cancelled before accept ended
@@ -238,7 +242,7 @@ def run_shard(spec):
 
 def finish(total, tier):
     need = ["running_coroutine_payloads_judged", "payloads_cancelled_and_cleaned_asyncio", "payloads_cancelled_and_cleaned_trio",
-            "shielded_cleanups_finished_first", "terminations_with_blocked_threads", "payloads_adopted_during_termination_started", "scenarios_driving_metarunner_directly", "dispatcher_workers_judged"]
+            "shielded_cleanups_finished_first", "terminations_with_blocked_threads", "payloads_adopted_during_termination_started", "scenarios_driving_metarunner_directly", "dispatcher_workers_judged", "private_waiters_cancelled_properly"]
     need += ["trigger_" + t for t in TRIGGERS if not t.startswith("systemexit")]
     for name in need:
         if not total.counters.get(name) and not total.violations:
